@@ -323,10 +323,8 @@ fn parse_at_rule(
                             let xs = x.to_ascii_lowercase();
                             let xs = xs.as_str();
                             if !matches!(xs, "layer" | "supports") {
-                                ss.add_warning(
-                                    error::ParseErrorKind::UnexpectedCharacter,
-                                    peek.position..peek.position,
-                                );
+                                // any other function starts the media query list (`<general-enclosed>`)
+                                has_media = true;
                                 break;
                             }
                             input.next().ok();
